@@ -19,8 +19,10 @@ META = dict(
     rule='unit = (lens, field, num_rays, grid) cell of the lattice; evaluation = one FFTPSF / FFTMTF / GeometricMTF call compared '
          'pixel by pixel / sample by sample; non-trivial = aberrated pupil (Strehl < 0.99) or clipped pupil; distinct = rounded Strehl',
     exhaustive=True,
-    bounds=dict(quick='6 lenses x fields {0,1} x (num_rays, grid) in {(16,64),(17,64),(32,65),(33,65),(32,128),(33,128),(64,256)}',
-                thorough='adds (64,1024), (128,512), (17,65), (16,65) and 4 numeric variants of the lens menu'),
+    bounds=dict(quick='6 lenses x fields {0,1} x (num_rays, grid) in {(16,64),(17,64),(32,65),(33,65),(32,128),(33,128),(64,256)}; '
+                      '3 dispersive lenses with 3 wavelengths x primary in each position x analysed wavelength x fields {0,1} x '
+                      '{(32,128),(33,64)}: FFTPSF and FFTMTF at primary and non-primary wavelengths',
+                thorough='adds (64,1024), (128,512), (17,65), (16,65) and 4 numeric variants of the lens menu; polychromatic family also at (17,65), (64,256)'),
     tolerances=dict(pixel='1e-9 x 100', energy='1e-9 relative', mtf_sampling='2/num_rays', geometric_mtf='0.01 + 1.5/sqrt(N) x (freq x bin width / 0.25), judged only while freq x bin width <= 0.25'),
     assumptions=['pupil phase from the geometric OPD oracle (vmc.ref.opd)', 'Airy MTF (2/pi)(phi - cos phi sin phi)',
                  'working F-number 1/(2 n sin U) from the real marginal ray for the cut-off'],
@@ -49,6 +51,10 @@ def lens_menu(v):
     return menu
 
 
+POLY_LENSES = ('singlet', 'doublet', 'singlet-clipped')
+POLY_WAVES = (0.4861, 0.5876, 0.6563)
+POLY_LATTICE_Q = [(32, 128), (33, 64)]
+POLY_LATTICE_T = POLY_LATTICE_Q + [(17, 65), (64, 256)]
 LATTICE_Q = [(16, 64), (17, 64), (32, 65), (33, 65), (32, 128), (33, 128), (64, 256)]
 LATTICE_T = LATTICE_Q + [(64, 1024), (128, 512), (17, 65), (16, 65), (96, 256)]
 
@@ -61,12 +67,21 @@ def units(tier, variant):
                 out.append(dict(lens=name, field=fi, num_rays=nr, grid=g, variant=variant))
         out.append(dict(lens=name, field=0, kind='mtf', variant=variant))
         out.append(dict(lens=name, field=1, kind='mtf', variant=variant))
+    # polychromatic dispersive lenses analysed away from the primary wavelength (primary first / in the middle / last)
+    for name in POLY_LENSES:
+        for pi in (0, 1, 2):
+            for wq in POLY_WAVES:
+                for fi in (0, 1):
+                    for (nr, g) in (POLY_LATTICE_Q if tier == 'quick' else POLY_LATTICE_T):
+                        out.append(dict(lens=name, field=fi, num_rays=nr, grid=g, variant=variant, primary=pi, w=wq))
     return out
 
 
-def build_lens(name, v):
+def build_lens(name, v, primary=None):
     m = lens_menu(v)[name]
     waves = ((0.5876, True),)
+    if primary is not None:
+        waves = tuple((wq, i == primary) for i, wq in enumerate(POLY_WAVES))
     surfs = LZ.fix_thickness_signs(m['surfs'])
     sp = LZ.spec(surfs, obj=m['obj'], ap=m['ap'], ftype=m['ftype'], fields=m['fields'], waves=waves)
     if m.get('focus'):
@@ -76,10 +91,12 @@ def build_lens(name, v):
     return sp, LZ.build(sp)
 
 
-def oracle_pupil(o, sp, Hy, w, n):
+def oracle_pupil(o, sp, Hy, w, n, w_primary=None):
     """Complex pupil on the n x n uniform grid from the geometric OPD oracle and the traced intensities."""
     rows = prescription.rows(sp, lambda mm, prev: LZ.ref_index(mm, w, prev))
-    xpl = abcd.XPL(rows)
+    # the library's exit pupil is a primary-wavelength quantity (as in C09)
+    wp = w if w_primary is None else w_primary
+    xpl = abcd.XPL(prescription.rows(sp, lambda mm, prev: LZ.ref_index(mm, wp, prev)))
     g = np.linspace(-1, 1, n)
     X, Y = np.meshgrid(g, g)
     x, y = X.ravel(), Y.ravel()
@@ -114,19 +131,25 @@ def working_fno(o, sp, Hy, w):
 def run_psf(part, unit):
     from optiland.psf import FFTPSF
     v = unit['variant']
-    sp, o = build_lens(unit['lens'], v)
+    sp, o = build_lens(unit['lens'], v, unit.get('primary'))
     part.states += 1
     nr, G = unit['num_rays'], unit['grid']
-    w = 0.5876
+    w = unit.get('w', 0.5876)
     Hy = [0.0, 1.0][unit['field']]
     parity = 'even' if (G - nr) % 2 == 0 else 'odd'
     cond = f'grid-minus-sampling={parity}'
     det = dict(lens=unit['lens'], Hy=Hy, num_rays=nr, grid=G, variant=v)
+    w_primary = None
+    if unit.get('primary') is not None:
+        w_primary = POLY_WAVES[unit['primary']]
+        cond += ',polychromatic,wavelength=' + ('primary' if w == w_primary else 'non-primary')
+        det.update(wavelength=w, primary=w_primary)
+        part.count('poly:primary' if w == w_primary else 'poly:non-primary')
     psf_obj = FFTPSF(o, (0.0, Hy), w, num_rays=nr, grid_size=G)
     part.transitions += 1
     part.evals += 1
     psf = np.asarray(psf_obj.psf, float)
-    P, inside, opd, inten = oracle_pupil(o, sp, Hy, w, nr)
+    P, inside, opd, inten = oracle_pupil(o, sp, Hy, w, nr, w_primary)
     clipped = bool(np.any(inten == 0))
     if clipped:
         cond += ',clipped-pupil'
@@ -166,8 +189,47 @@ def run_psf(part, unit):
         part.violation(PID, 'strehl-not-above-one', 'FFTPSF.strehl_ratio', cond, det, observed=sr, expected='<= 1')
     if sr_ref < 0.99 or clipped:
         part.count('nontrivial')
-    part.outcome(unit['lens'], Hy, nr, G, round(sr_ref, 6))
+    part.outcome(unit['lens'], Hy, nr, G, w, round(sr_ref, 6))
     part.sample(det)
+    if w_primary is not None:
+        run_poly_mtf(part, unit, sp, o, P, w, w_primary, Hy, cond, det)
+
+
+def run_poly_mtf(part, unit, sp, o, P, w, w_primary, Hy, cond, det):
+    """FFT MTF of a dispersive polychromatic lens at the analysed wavelength: curves from the oracle pupil at that wavelength,
+    cut-off from the reference working F-number at that wavelength."""
+    from optiland.mtf import FFTMTF
+    nr, G = unit['num_rays'], unit['grid']
+    m = FFTMTF(o, fields=[(0.0, Hy)], wavelength=w, num_rays=nr, grid_size=G)
+    part.transitions += 1
+    part.evals += 1
+    rows_p = prescription.rows(sp, lambda mm, prev: LZ.ref_index(mm, w_primary, prev))
+    ys_, us_, _ = abcd.marginal(rows_p, tuple(sp['ap']))
+    fno_p = 1.0 / (2.0 * rows_p[-1]['n_post'] * abs(us_[-1]))
+    rows_w = prescription.rows(sp, lambda mm, prev: LZ.ref_index(mm, w, prev))
+    ys_, us_, _ = abcd.marginal(rows_w, tuple(sp['ap']))
+    fno_w = 1.0 / (2.0 * rows_w[-1]['n_post'] * abs(us_[-1]))
+    # the library's working F-number is a primary-wavelength quantity; the two references differ by the (small) chromatic
+    # change of focal length, which bounds what either reading of "working F-number" can claim
+    cut_p, cut_w = 1.0 / (w * 1e-3 * fno_p), 1.0 / (w * 1e-3 * fno_w)
+    lo, hi = min(cut_p, cut_w), max(cut_p, cut_w)
+    part.count('cmp:cutoff')
+    if not (lo * (1 - 1e-8) <= m.max_freq <= hi * (1 + 1e-8)):
+        part.violation(PID, 'mtf-cutoff-is-1/(lambda x working F-number)', 'FFTMTF.max_freq', cond, det, observed=float(m.max_freq),
+                       expected=[lo, hi], tol=1e-8)
+    F = np.fft.fftshift(np.fft.fft2(pad_to(P, G)))
+    otf = np.abs(np.fft.fftshift(np.fft.fft2(np.abs(F) ** 2)))
+    tan_ref = otf[G // 2:, G // 2] / otf[G // 2, G // 2]
+    sag_ref = otf[G // 2, G // 2:] / otf[G // 2, G // 2]
+    for nm, got, ref in (('tangential', np.asarray(m.mtf[0][0], float), tan_ref), ('sagittal', np.asarray(m.mtf[0][1], float), sag_ref)):
+        part.count('cmp:mtf-curve')
+        if got.shape != ref.shape or np.max(np.abs(got - ref)) > 1e-7:
+            part.violation(PID, 'mtf-is-normalised-transform-of-psf', 'FFTMTF.mtf', cond, dict(det, curve=nm), observed=got[:4], expected=ref[:4],
+                           tol=1e-7)
+            continue
+        if abs(got[0] - 1) > 1e-12 or np.min(got) < -1e-12 or np.max(got) > 1 + 1e-9:
+            part.violation(PID, 'mtf-within-[0,1]-starting-at-1', 'FFTMTF.mtf', cond, dict(det, curve=nm), observed=[float(got[0]), float(np.max(got))],
+                           expected='starts at 1, within [0, 1]')
 
 
 def airy(r):
